@@ -19,6 +19,7 @@ class FCfg:
         self.line_tables = True
         self.type_units = 0.25    # chance of DWARF 5 type units (and, rarely, a skeleton unit) among the units
         self.long_chains = 0.0    # chance of an extra unit holding one chain of 15-40 links (C06 sets it)
+        self.odd_tags = 0.0       # chance that an ordinary DIE carries a unit tag (valid to store, never emitted by compilers; C02 sets it)
         self.alt = 0.0            # chance of a dwz-style supplementary file with links into it (C06 sets it)
         self.debug_types = 0.0    # chance of DWARF 4 type units in .debug_types reached through DW_FORM_ref_sig8 links
         self.bulk = 0.2           # chance of a unit padded with a long string (offsets beyond 0x400 / 0x10000)
@@ -119,6 +120,10 @@ class ForestGen:
     # -- trees -------------------------------------------------------------------------
     def subtree(self, version, depth, die_pool, unit_dies, budget):
         tag = TAG[self.r.choice(PLAIN_TAGS)]
+        if self.cfg.odd_tags and self.chance(self.cfg.odd_tags):
+            # what makes a DIE the root of a unit is where it stands, not its tag
+            tag = TAG[self.r.choice(["compile_unit", "partial_unit", "type_unit", "skeleton_unit"])]
+            self.label("unit-tag-on-an-inner-die")
         d = Die(tag, self.random_attrs(version, die_pool, unit_dies))
         unit_dies.append(d)
         self.ndies += 1
